@@ -727,8 +727,14 @@ pub fn sess_sweep(r: &mut Rng, name: &str, count: usize) -> Vec<String> {
         case.actions.push(a_simple(DRIVE));
         case.actions.push(a_disconnect(None, None));
         case.actions.push(a_subscribe(&[], &[(b"x", 0, false, false, 0)]));
-        case.actions.push(a_num(12, 1));
-        case.actions.push(a_connect(&[(0, connack(true, 0, &[]))]));
+        if r.chance(1, 3) {
+            case.actions.push(a_num(12, 1));
+            case.actions.push(a_connect(&[(0, connack(true, 0, &[]))]));
+        } else {
+            // a conformant broker: CONNACK success, session present iff the CONNECT carried no clean start
+            case.actions.push(a_num(12, 2));
+            case.actions.push(a_connect(&[]));
+        }
         case.actions.push(a_publish(b"after", None, &[], 1, b"q", false));
         case.actions.push(a_simple(POLL));
         case.actions.push(a_simple(POLL));
